@@ -77,10 +77,17 @@ def s1(ctx):
                 v = e.d['val']
                 okh = any(x.k == 'attr' and x.a[1] == 'hash' for x in values_in(v)) or \
                     (v.k == 'bound' and v.a[1] == 'hash')
+                # ... of a shard's own disk (which merged the settings stored in the directory), not of a disk
+                # object built on the side from constructor arguments only
+                from_shard = any((x.k == 'selfattr' and x.a[1] == '_shards') or (x.k == 'new' and x.a[0] == 'Cache')
+                                 for x in deep_values(v, p.trace))
+                okh = okh and from_shard
             if e.kind == 'SETATTR' and e.d['attr'] == '_count':
                 okc = e.d['val'].k == 'param' and e.d['val'].a[0] == 'shards'
     obs.append(Ob('S1', 'FanoutCache.__init__/hash-and-count', okh and okc,
-                  'self._hash is not a shard disk\'s hash method or self._count is not the shard count', init.loc()))
+                  'self._hash is not the hash method of a shard\'s own disk (a disk built separately does not see the '
+                  'disk_* settings stored in the directory, so keys pickled with the stored protocol route to other '
+                  'shards after a reopen) or self._count is not the shard count', init.loc()))
     return obs
 
 
